@@ -220,6 +220,51 @@ def run(ctx):
                         {"port": "pure", "script": [line[:300]], "decoded": d[:400], "want": want[:400]})
     samples.append({"connreq": lines[3][:120], "impl": impl[3][:120] if len(impl) > 3 else ""})
 
+    # "invalid arguments denied without trace" on the real client: a denied request writes nothing, stores nothing and
+    # holds no transaction slot afterwards - including requests whose filters are valid one by one and too large together
+    from . import sess, sesscheck as SC
+    r = ctx.rng
+    denied = ["call %s sub 1 none", "call %s sub 1 -", "call %s sub 2 61,ff", "call %s sub 0 6100", "call %s unsub none", "call %s unsub 61,-",
+              "call %s pub 0 - 6869", "call %s pub 0 2b 6869", "call %s pub 1 612f23 00", "pal 0 - 6869", "peo 1 23 6869", "pal 0 6100 6869",
+              "call %s subhuge 4100 65535", "call %s unsubhuge 4097 65535", "call %s subhuge 4096 65533"]
+    sscripts = []
+    for k in range(3 if ctx.quick() else 12):
+        sc = ["init 636c69 0 4 4", "dial ok 20020000", "feed block", "rs", "call keep sub 1 612f62", "counters", "store"]
+        picks = r.sample(denied[:12], 6) + r.sample(denied[12:], 1 if ctx.quick() else 2)
+        r.shuffle(picks)
+        for j, d in enumerate(picks):
+            sc += [d % ("d%d" % j) if "%s" in d else d, "counters", "store"]
+        sc += ["call after unsub 61", "counters"]
+        sscripts.append(sc)
+    stats["deny_session_ops"] = 0
+    for sc, (io, mo) in zip(sscripts, sess.run_session(ctx, sscripts)):
+        tr = SC.parse_trace(io, sc)
+        last_ctr, last_store = None, None
+        for i, (op, lines) in enumerate(tr):
+            f = op.split()
+            den = any(l.split()[-1:] == ["deny"] for l in lines if l.startswith(("ret ", "pub err")))
+            if den:
+                stats["deny_session_ops"] += 1
+                if any(l.startswith(("ev w ", "ev save", "ev del")) for l in lines):
+                    v.violation("C09:deny-trace:io", "the denied request `%s` wrote to the connection or the store: %s" % (op[:50], lines[:3]),
+                                {"port": "session", "script": sc[:i + 1], "impl": io[-12:]})
+                nxt = [l for o, ls in tr[i + 1:i + 3] for l in ls if l.startswith(("ctr ", "store"))]
+                for l in nxt:
+                    ref = last_ctr if l.startswith("ctr ") else last_store
+                    if ref is not None and l != ref:
+                        v.violation("C09:deny-trace:state", "after the denied request `%s` the client's bookkeeping changed: `%s` was `%s`" % (op[:50], l[:120], ref[:120]),
+                                    {"port": "session", "script": sc[:i + 3], "impl": io[-12:]})
+            for l in lines:
+                if l.startswith("ctr "):
+                    last_ctr = l
+                elif l.startswith("store"):
+                    last_store = l
+        if not sess.unsupported(mo):
+            d = C.first_diff(io, mo)
+            if d:
+                v.broken_tie("implementation and model disagree on denied requests (session port): impl `%s` model `%s`" % (d[1][:100], d[2][:100]),
+                             {"port": "session", "script": sc, "impl": io[-20:], "model": mo[-20:]})
+
     ev = stats["strcheck"] + stats["topiccheck"] + stats["pubhead"] + stats["connreq"]
     cov = C.proof_coverage(ctx, {
         "evaluations": ev, "distinct_nontrivial": len(distinct),
